@@ -24,6 +24,7 @@ import Gama.Lemmas.FullHist
 import Gama.Lemmas.AdjHist
 import Gama.Lemmas.AdjBuf
 import Gama.Lemmas.FullDenote
+import Gama.Lemmas.FullRefusal
 namespace Gama.Props.C04
 open Gama Gama.C04 Gama.C04.Full Gama.C04.AdjM Gama.C04.Net
 
@@ -220,16 +221,76 @@ problem (any size, regular or singular).  What survives physically is state of t
 (Model/FullHist.lean, Model/AdjHist.lean).  Quantifier as before: the regularisation the object is
 configured with resolves the defect of every input it is given (`ValidF`, `ValidS`, `AInput.Ok`). -/
 
-/-- **chol, gso: history freedom across inputs.**  After any history including `reset(A', b')` with other
-    inputs every answer is that of a brand-new object given the CURRENT input and configuration.  For chol
-    the list 1..N' that `solve()` built for an earlier size stays in `minx_i`; the invariant says so
-    (`Inv.all`) and the proof uses the code's `minx_n != N` test that rebuilds it. -/
+/-- **chol, gso: history freedom across inputs — refusals included (round 5).**  No hypothesis on the inputs, the
+    lists or the outcomes: after ANY history of queries, `min_x…`, `reset`, `reset(A', b')` — any of the solves may
+    have been refused with BadRegularization — every answer, a refusal included, is that of a brand-new object given
+    the CURRENT input and configuration, unless the refusal of this very input under this very configuration has
+    already been delivered and nothing cleared `is_solved` since (`Pending`: both classes set `is_solved = true`
+    before they throw, `null_space()` reads `defect()/lindep()` next; a fresh object refuses there — second part).
+    A refusal never reaches another problem or configuration.  For gso this is the statement that the ICGS error
+    counter (state `FState.err`) is reset on every `solve()`; the sites are regenerated (Gen/IcgsError.lean) and the
+    variant of seeded/C20-seed3 violates it (`C20_gso_refusal_sticky_with_reset_behind_early_return`). -/
 theorem full_history_free_across_inputs (k : Kind) (inp0 : Full.Input) (ua : Bool) (l0 : Option (List Nat))
+    (ops : List Full.HOp) (op : Full.Op) :
+    let h := hfrun k ⟨inp0, Full.init ua l0⟩ ops
+    (¬ Pending k h.inp h.s → (hfstep k h (.q op)).2 = Full.fresh k h.inp h.s.useAll h.s.list op) ∧
+    (Pending k h.inp h.s → op.IsQuery → Full.fresh k h.inp h.s.useAll h.s.list op = .badReg) ∧
+    (op.IsQuery → (Full.fresh k h.inp h.s.useAll h.s.list op = .badReg ↔
+        (0 < h.inp.nullity ∧ h.inp.resolves (effM k h.inp h.s) = false))) := by
+  intro h
+  have hi := hfrunR k ⟨inp0, Full.init ua l0⟩ (invR_unsolved _ _ _ rfl) ops
+  refine ⟨(stepR k h.inp h.s hi op).2, fun hp hq => pending_fresh_refuses k h.inp h.s hp op hq, fun hq => ?_⟩
+  rw [fresh_refused_iff k h.inp _ _ op hq]
+  unfold Refuses
+  rw [← effM_cfg]
+
+/-- the refusal-inclusive invariant behind it: a solved object is, field by field (error counter included), what a
+    fresh object with the same configuration becomes by solving the current input -/
+theorem full_invariant_with_refusals (k : Kind) (inp0 : Full.Input) (ua : Bool) (l0 : Option (List Nat))
+    (ops : List Full.HOp) :
+    let h := hfrun k ⟨inp0, Full.init ua l0⟩ ops
+    h.s.solved = true → (Full.solve k h.inp (Full.init h.s.useAll h.s.list)).1 = h.s :=
+  hfrunR k ⟨inp0, Full.init ua l0⟩ (invR_unsolved _ _ _ rfl) ops
+
+/-- the round-3 statement (histories whose configurations resolve every defect: `ValidF`) is the special case in which
+    no refusal is ever pending -/
+theorem full_history_free_across_inputs_resolving (k : Kind) (inp0 : Full.Input) (ua : Bool) (l0 : Option (List Nat))
     (h0 : CfgOk k inp0 ua l0) (ops : List Full.HOp) (hops : ValidF k ⟨inp0, Full.init ua l0⟩ ops)
     (op : Full.Op) (hop : op.Ok (hfrun k ⟨inp0, Full.init ua l0⟩ ops).inp) :
     let h := hfrun k ⟨inp0, Full.init ua l0⟩ ops
-    (hfstep k h (.q op)).2 = Full.fresh k h.inp h.s.useAll h.s.list op :=
-  Full.step_eq_fresh (hfrun_inv (h := ⟨inp0, Full.init ua l0⟩) h0 hops) op hop
+    (hfstep k h (.q op)).2 = Full.fresh k h.inp h.s.useAll h.s.list op := by
+  intro h
+  have _ := hop
+  have hinv := hfrun_inv (h := ⟨inp0, Full.init ua l0⟩) h0 hops
+  refine (full_history_free_across_inputs k inp0 ua l0 ops op).1 ?_
+  rintro ⟨_, h0', hr⟩
+  have he : effM k h.inp h.s = Full.eff h.inp h.s := by
+    cases k with
+    | gso => exact effM_gso _ _
+    | chol => exact effM_chol _ _ (Nat.lt_of_lt_of_le h0' hinv.wf) (hinv.all rfl)
+  rw [he] at hr
+  rcases hinv.cfg with hc | hc
+  · exact absurd hc (Nat.pos_iff_ne_zero.1 h0')
+  · rw [hc] at hr; exact absurd hr (by decide)
+
+/-- non-vacuity of the refusal-inclusive theorem (gso and chol): a singular system with a list too short for its
+    defect is refused; `reset` to a regular system, to a singular one the list resolves and back: the answers are
+    `x`, `x` over the list, and the refusal again — each what a fresh object gives; and the `Pending` state exists:
+    right after the refusal the same query returns the abandoned artefact -/
+example :
+    let a : Full.Input := { n := 6, nullity := 3, resolves := fun l => decide (3 ≤ l.length) }
+    let b : Full.Input := { n := 4, nullity := 0, resolves := fun _ => true }
+    let c : Full.Input := { n := 5, nullity := 2, resolves := fun l => decide (2 ≤ l.length) }
+    ∀ k : Kind,
+      let h := hfrun k ⟨a, Full.init false (some [1, 2])⟩ [.q .unknowns]
+      (hfstep k ⟨a, Full.init false (some [1, 2])⟩ (.q .unknowns)).2 = .badReg ∧
+      Pending k h.inp h.s ∧ (hfstep k h (.q .unknowns)).2 = .x (.broken [1, 2]) ∧
+      (hfstep k (hfstep k h (.resetNew b)).1 (.q .unknowns)).2 = .x .plain ∧
+      (hfstep k (hfstep k h (.resetNew c)).1 (.q .unknowns)).2 = .x (.reg [1, 2]) ∧
+      (hfstep k (hfstep k h (.resetNew a)).1 (.q .unknowns)).2 = .badReg ∧
+      (hfstep k (hfstep k h (.q (.minx [1, 2, 3]))).1 (.q .unknowns)).2 = .x (.reg [1, 2, 3]) := by
+  intro a b c k
+  cases k <;> decide
 
 theorem full_invariant_across_inputs (k : Kind) (inp0 : Full.Input) (ua : Bool) (l0 : Option (List Nat))
     (h0 : CfgOk k inp0 ua l0) (ops : List Full.HOp) (hops : ValidF k ⟨inp0, Full.init ua l0⟩ ops) :
